@@ -7,7 +7,8 @@ class C34(Spec):
     harness = "h_c34"
     lean_deps = ("C33",)
     required_theorems = ("C34.rebuild_exact", "C34.rebuild_or_wait", "C34.available_when_distinct", "C34.missing_waits",
-                         "C34.timeout_requests_full", "C34.complete_pool_rebuilds_at_any_time",
+                         "C34.timeout_requests_full", "C34.complete_pool_rebuilds_at_any_time", "C34.late_arrival_rebuilds_exact",
+                         "C34.late_arrival_posted_exact", "C34.missing_waits_exact", "C34.timeout_exact",
                          "C34.request_only_after_failed_rebuild", "C34.no_request_for_old_height")
     level_text = ("Lean theorems over the light-block model shared with C33 (addLtBlock / buildPendBlock incl. in-place "
                   "group expansion / buildPendList / pendBlockLoop tick; the pool as the first-push-wins short-hash map of "
@@ -22,7 +23,13 @@ class C34(Spec):
                   "types.SetTimeDelta, the loop body stepped; each step abstracted to the model's op line and compared; the "
                   "property predicate (byte-identical transactions in place, block hash, merkle root, nothing posted while "
                   "incomplete, request on timeout) evaluated on the implementation.")
-    level_note = ("the mempool module is scripted around the real SHashTxCache (getTxListByHash's five lines are mirrored); a "
+    level_note = ("Restrictions stated in the theorems: the mempool module is up and answers one entry per hash, the block has at "
+                  "most 2^16 transactions (larger counts are outside the model), and for rebuild_or_wait an absent segment has "
+                  "none of its short hashes in the pool (the mempool indexes a group under its head only and does not hold a "
+                  "group member as a plain transaction). 'Same hash' has no Lean content (slots are transaction ids, the header "
+                  "is copied): byte-identical transactions, block hash and merkle root are checked by the differential run "
+                  "only. missing_waits / timeout_requests_full give membership for an arbitrary queue, missing_waits_exact / "
+                  "timeout_exact the complete outcome for a one-block queue. the mempool module is scripted around the real SHashTxCache (getTxListByHash's five lines are mirrored); a "
                   "40-bit short-hash collision is the named hypothesis (shown to splice the colliding transaction in, on model "
                   "and code); timers: the 200 ms ticker is replaced by stepping the tick body (syntax-tree equality with the "
                   "production loop body is checked by C33 on every run).")
